@@ -31,6 +31,10 @@ SIGNATURES = [
     ("subprogram_parameter_kw", r"kw:(function|procedure) \[\S+\] kw:parameter"),
     ("call_extra_rpar", r"RightPar \[SemiColon\] .*out=RightPar"),
     ("config_selected_entity", r"ctx=(\S+ )*kw:configuration \S+ kw:of \S+ Dot \[Identifier\]"),
+    ("postponed_selected", r"\[kw:postponed\] kw:with"),
+    ("parameter_without_list", r"kw:(function|procedure) \S+ (kw:generic .*)?\[kw:parameter\] (kw:return|SemiColon|kw:is)"),
+    ("config_spec_map_only", r"kw:for .* Colon Identifier kw:(generic|port) \[kw:map\]"),
+    ("config_spec_no_binding", r"ctx=\[kw:(begin|end)\] .*out=SemiColon|kw:for .* Colon Identifier \[SemiColon\].*out=SemiColon SemiColon"),
 ]
 
 
@@ -284,9 +288,18 @@ def coq_cross_check(res, terms):
 
 
 def main(tier, replay=None):
+    import time
     res = Result(PROP, tier, level="other")
     d = rundir(PROP)
+    stage_s = {}
+    t_prev = [time.time()]
+
+    def lap(name):
+        now = time.time()
+        stage_s[name] = round(stage_s.get(name, 0) + now - t_prev[0], 1)
+        t_prev[0] = now
     proof_stage(res, PROP, thorough=(tier == "thorough"))
+    lap("proof")
     ok, log, hbin = harness_build("c12")
     if not ok:
         res.violation("harness build failed against the current /repo tree", {"kind": "build", "log": log[-3000:]},
@@ -297,6 +310,7 @@ def main(tier, replay=None):
         res.violation("extracted model build failed", {"kind": "build", "log": log[-3000:]}, no_failing_input=True)
         return res.finish()
 
+    lap("builds")
     opensig = open_signatures()
     seen_known = {}
     pending = {"input": [], "corr": []}
@@ -310,6 +324,7 @@ def main(tier, replay=None):
             if os.path.exists(p):
                 os.remove(p)
         rc, out = run([hbin, mode, str(seed() if sd is None else sd), str(n), cases, impl, model], timeout=3000)
+        lap(tag + ":harness")
         if rc != 0:
             last = ""
             if os.path.exists(cases):
@@ -324,13 +339,56 @@ def main(tier, replay=None):
             return
         env = env_base()
         env["C12_COQ_TERMS"] = "1"
-        with open(model) as fin, open(mout, "w") as fout:
-            p = subprocess.run([mbin, str(LIMIT)], stdin=fin, stdout=fout, env=env, preexec_fn=big_stack)
-        if p.returncode != 0:
-            res.violation("extracted model runner failed (rc=%s)" % p.returncode, {"kind": "build"}, no_failing_input=True)
-            return
-        compare(res, st, tag, cases, impl, mout, pending, opensig, seen_known, terms, term_every)
+        # the model runs of the streams overlap (one process per stream); they are joined before the comparison
+        nsh = 8 if tag == "libraries" else 1
+        # shard k gets the lines k, k + nsh, ... of the model input; the outputs are interleaved again before comparing
+        lines = open(model).read().split("\n")
+        if lines and lines[-1] == "":
+            lines.pop()
+        procs = []
+        for k in range(nsh):
+            pin = "%s.%d" % (model, k)
+            pout = "%s.%d" % (mout, k)
+            with open(pin, "w") as f:
+                for ln in lines[k::nsh]:
+                    f.write(ln + "\n")
+            fin = open(pin)
+            fout = open(pout, "w")
+            p = subprocess.Popen([mbin, str(LIMIT)], stdin=fin, stdout=fout, env=env, preexec_fn=big_stack)
+            procs.append((p, fin, fout, pin, pout))
+        running.append((tag, procs, len(lines), cases, impl, mout, term_every))
 
+    def join_streams():
+        for tag, procs, nlines, cases, impl, mout, term_every in running:
+            bad_rc = None
+            outs = []
+            for p, fin, fout, pin, pout in procs:
+                rc = p.wait()
+                fin.close()
+                fout.close()
+                if rc != 0:
+                    bad_rc = rc
+                o = open(pout).read().split("\n")
+                if o and o[-1] == "":
+                    o.pop()
+                outs.append(o)
+                os.remove(pin)
+                os.remove(pout)
+            lap(tag + ":model")
+            if bad_rc is not None:
+                res.violation("extracted model runner failed on stream %s (rc=%s)" % (tag, bad_rc), {"kind": "build"}, no_failing_input=True)
+                continue
+            nsh = len(procs)
+            with open(mout, "w") as f:
+                for i in range(nlines):
+                    sh = outs[i % nsh]
+                    j = i // nsh
+                    f.write((sh[j] if j < len(sh) else "R=0|S=-|P=-|L=-|ops=0|unsupported=0|runner produced no line|-|") + "\n")
+            compare(res, st, tag, cases, impl, mout, pending, opensig, seen_known, terms, term_every)
+        lap("compare")
+        del running[:]
+
+    running = []
     if replay:
         rp = json.load(open(replay))
         path = os.path.join(d, "replay.in")
@@ -369,9 +427,13 @@ def main(tier, replay=None):
         if thorough:
             for k in range(1, 4):
                 stream("snippets%d" % k, "cases:" + sn, 7, 0, sd=seed() + 1000 * k)
+        # the 'optional tokens' family: every construct with optional labels / end labels / keywords in every combination
+        # of its optional parts (exhaustive), + variants
+        stream("optional_tokens", "opt", 3 if thorough else 1, 41 if thorough else 29)
         # generated design files (+ 2 variants each)
         stream("generated", "gen", 6000 if thorough else 250, 23 if thorough else 7)
 
+    join_streams()
     # the smallest failing sources first
     pending["input"].sort(key=lambda wo: len(wo[1].get("case", "")))
     for what, obj in pending["input"][:6]:
@@ -381,6 +443,8 @@ def main(tier, replay=None):
     res.coverage["property_violating_inputs"] = len(pending["input"])
     res.coverage["correspondence_differences"] = len(pending["corr"])
     coq_cross_check(res, terms[:150])
+    lap("coq_cross_check")
+    res.coverage["stage_seconds"] = stage_s
 
     for fid, cnt in seen_known.items():
         res.coverage.setdefault("known_finding_hits", {})[fid] = cnt
@@ -400,7 +464,10 @@ def main(tier, replay=None):
         "inside one of 9 wrappers (package / architecture / process / declarative part / expression / subtype / entity / "
         "parameter list / package body); design files assembled from fragments of a syntax generator (all declaration, "
         "concurrent and sequential statement forms, all operators, names, aggregates, literals of every kind, configurations, "
-        "contexts), each fragment test-parsed.  Each clean source is followed by variants (quick: 1-2, thorough: 7 per seed) cut at "
+        "contexts), each fragment test-parsed; the exhaustive 'optional tokens' family: 57 templates of statements, declarations "
+        "and design units with optional label / repeated end label / end keyword / `?` of matching case and select / postponed / "
+        "shared / pure / impure / delay mechanism / force-release modes / is / parameter / open / bus ..., each rendered with "
+        "EVERY combination of its optional parts (about 3000 combinations accepted by the parser).  Each clean source is followed by variants (quick: 1-2, thorough: 7 per seed) cut at "
         "the token boundaries: comments at token gaps (line and block, before/after/several, with Latin-1, non-Latin-1, "
         "trailing blanks, NBSP, comment delimiters inside), comments at every gap, minimal spacing, CRLF/CR/tabs/blank lines, "
         "letter case + extended identifiers + Latin-1 strings/characters (consistently per identifier), all of them, an "
@@ -420,8 +487,10 @@ def main(tier, replay=None):
     res.coverage["partial"] = True
     res.coverage["explanation"] = (
         "Theorem half (Props/C12.v): the model of Buffer::push_token/push_whitespace/line_break(s)/indentation, the separator "
-        "discipline sep_ok, and the round trip `lex (render ts seps)` = same kinds, values and comments for the token kinds of "
-        "`supported_kind` (see `unproved`), the trace-checker soundness statement, and the necessity examples (glue hazards).  "
+        "discipline sep_ok, and the round trip `lex (render ts seps)` = same kinds, values and comments for the tokens of every "
+        "diagnostic-free input, ALL token kinds (C12_render_lex_roundtrip; numbers, bit strings, strings and extended "
+        "identifiers through C11's stops-at-end-of-input lemma lifted to the follow set by a lockstep argument), the "
+        "trace-checker soundness statement, and the necessity examples (glue hazards).  "
         "Exploration half (decisive for the formatter arms, which are not modelled): the property itself is run as an "
         "implementation-level oracle on every explored source (parse -> format -> parse; same units, tokens, flattened comments up "
         "to trailing blanks), and every formatter output is checked to be a rendering of the input tokens by the extracted model "
@@ -442,9 +511,4 @@ def main(tier, replay=None):
 UNPROVED = [
     "each formatter arm emits every token id of its node exactly once, in order, with safe separators: observed per file "
     "(trace reconstruction + sep_ok), not proved for all ASTs",
-    "render_lex_roundtrip for real, based and exponent literals and bit-string literals (arms of parse_abstract_literal / "
-    "parse_bit_string): evaluated per file by the extracted relex_same; files whose tokens are all of a supported kind are "
-    "counted under model.all_supported",
-    "supported_kind (explicit well-formedness of a token) is not derived from `the token is a lexer output`: it is evaluated "
-    "on every input token of every explored file (model.unsupported_tokens counts the literals of the kinds above)",
 ]
